@@ -261,6 +261,14 @@ func (s *session) commit(r *sessionRecord, trivial bool) (err error) {
 		if r.has(recSeqNum) {
 			nr.setSeqNum(r.seqNum)
 		}
+		// The compaction pointers carried by this commit must not be lost
+		// either: publish them first, so that the snapshot written below
+		// (fillRecord lists s.stCompPtrs) records them. They are only a hint
+		// for pickCompaction; advancing one for a commit that then fails is
+		// harmless.
+		for _, cp := range r.compPtrs {
+			s.setCompPtr(cp.level, cp.ikey)
+		}
 		err = s.newManifest(nr, nv)
 	} else {
 		err = s.flushManifest(r)
